@@ -689,4 +689,69 @@ def params_solved(repo: Repo, prop: str = PROP, rule: str = "C17.PARAMS-SOLVED")
 params_solved.rule_id = "C17.PARAMS-SOLVED"
 
 
-RULES = [purity, position_writers, link_algebra, affine_kinds, mirror_matrix, trig_domain, params_used, owns_geometry, angle_dimension, closest_search, float_stores, who_writes_points, symmetry_exact, angle_between_exact, match_tolerance, links_accumulate, radial_exact, no_alias_snapshot, rotation_exact, params_solved, link_chain]
+
+def initial_guess(repo: Repo) -> RuleRun:
+    """'every clamped vertex ends on its ... curve ... or surface' - on the stretch the user pointed at: where a clamp class takes
+    starting parameters from the caller (it reads self.initial_params in its initial_guess), the search for the vertex' own
+    parameters STARTS at exactly those, whatever the bounds are and wherever in the curve's own parameter range they lie (a full
+    circle runs to 2 pi, a helix further). Abstract run of every such initial_guess with supplied parameters, with and without bounds."""
+    from ..peval import NO_MATCH, Evaluator, NotEvaluable, Obj, Raised, Sym
+
+    r = RuleRun(PROP, "C17.INITIAL-GUESS", floor=2, what="a clamp that accepts starting parameters starts its parameter search exactly there (unclipped, bounds or not)")
+    base = repo.cls("optimize.clamps.clamp.ClampBase")
+    n = 0
+
+    def hook(ev, call: ast.Call, name):
+        nm = (name or "").split(".")[-1]
+        if nm == "clip" and len(call.args) == 3:
+            v, lo, hi = (ev.eval(a) for a in call.args)
+            if isinstance(v, list) and all(isinstance(x, (int, float)) for x in v) and isinstance(lo, (int, float)) and isinstance(hi, (int, float)):
+                return [min(max(x, lo), hi) for x in v]
+        if nm in ("array", "asarray", "copy") and call.args:
+            return ev.eval(call.args[0])
+        return NO_MATCH
+
+    for cls in sorted(repo.subclasses(base), key=lambda c: c.qualname):
+        fn = cls.methods.get("initial_guess")
+        if fn is None or not any(isinstance(x, ast.Attribute) and x.attr == "initial_params" for x in ast.walk(fn.node)):
+            continue
+        for bounds in (None, [[-2.0, 9.0], [-1.0, 20.0]]):
+            for given in ([4.25, 7.5], [0.3, 0.6]):
+                this = Obj("clamp", cls=cls)
+                this.set("initial_params", list(given))
+                this.set("bounds", bounds)
+                ev = Evaluator(repo=repo, module=fn.module, call_hook=hook)
+                ev.float_arith = True
+                try:
+                    got = ev.call_funcinfo(fn, [this])
+                except (Raised, NotEvaluable) as err:
+                    raise AnalysisError(f"{fn.qualname} not evaluable with supplied starting parameters: {err}") from err
+                n += 1
+                r.check(
+                    got == given,
+                    fn,
+                    f"{cls.name}: starting parameters {given}, bounds {bounds}: search starts there",
+                    f"{fn.qualname} with starting parameters {given} supplied by the caller and bounds {bounds} starts the search at {got}: on a curve or surface with several stretches near the vertex "
+                    "(a corrugated sheet, the second turn of a helix, a full circle beyond parameter 1) the minimiser ends on another stretch - a clamp created exactly ON its curve reports a position far from its vertex",
+                    fn.node,
+                    key=f"{cls.name}:{given}:{'bounds' if bounds else 'free'}",
+                )
+    r.require(n >= 8, f"only {n} initial_guess scenarios (CurveClamp, ParametricSurfaceClamp) evaluated")
+    return r
+
+
+initial_guess.rule_id = "C17.INITIAL-GUESS"
+
+
+
+def direction_length(repo: Repo) -> RuleRun:
+    """'linked vertices keep their ... mirror relation to their leader' / 'mirroring any entity ...': a mirror plane is given by a direction - its normal at any length. Shared rule (affine.direction_length_rule)."""
+    from ..affine import direction_length_rule
+
+    return direction_length_rule(repo, PROP, "C17.DIRECTION-LENGTH")
+
+
+direction_length.rule_id = "C17.DIRECTION-LENGTH"
+
+
+RULES = [purity, position_writers, link_algebra, affine_kinds, mirror_matrix, trig_domain, params_used, owns_geometry, angle_dimension, closest_search, float_stores, who_writes_points, symmetry_exact, angle_between_exact, match_tolerance, links_accumulate, radial_exact, no_alias_snapshot, rotation_exact, params_solved, link_chain, initial_guess, direction_length]
